@@ -185,7 +185,7 @@ func (w *world) do(s Stim) (ret string, reply kit.Msg, pan string) {
 		ccancel() // the usual `defer cancel()` of a caller: the cancel message must still reach the counterparty
 		// the cancel message is sent from a goroutine: wait for THIS call's message (an earlier close of the same channel has sent one already),
 		// otherwise it lands in the observation window of the next step
-		deadline := time.Now().Add(5 * time.Second)
+		deadline := time.Now().Add(2 * time.Second)
 		for time.Now().Before(deadline) {
 			if cancels() > k0 || err != nil {
 				break
